@@ -192,6 +192,82 @@ def run(ctx: core.Ctx, prop: str):
                     ctx.violation(f"unlisted_C07_dependency_{cm.split('/')[-1]}", f"second run of {cm} updated a manifest again",
                                   {"codemod": cm, "second_report": rep2, "expected": "no dependency added by the second run"})
     ctx.count("files_changed_by_first_run", n_changed)
+    if prop == "C02":
+        run_local_import_round(ctx, jobs, outs)
+
+
+def _added_imports(before: str, after: str):
+    """import statements (source text, single line) present at module level after the run but not before"""
+    import ast
+    try:
+        tb, ta = ast.parse(before), ast.parse(after)
+    except (SyntaxError, ValueError):
+        return []
+    have = {ast.dump(n) for n in tb.body if isinstance(n, (ast.Import, ast.ImportFrom))}
+    out = []
+    for n in ta.body:
+        if isinstance(n, (ast.Import, ast.ImportFrom)) and ast.dump(n) not in have:
+            seg = ast.get_source_segment(after, n)
+            if seg and "\n" not in seg and getattr(n, "module", "") != "__future__":
+                out.append(seg)
+    return out
+
+
+def run_local_import_round(ctx, jobs, outs):
+    """Second round for C02: the import a codemod adds already exists in the file, but only as a function-local (or
+    class-body) import elsewhere — the module-level name must still be bound after the rewrite."""
+    derived = {}
+    for job, o in zip(jobs, outs):
+        if o.get("worker_error"):
+            continue
+        for s in o["subprojects"]:
+            if s["error"] or s["tool"] is not None:
+                continue
+            for f, before in s["before"].items():
+                a1 = s["after1"].get(f)
+                if not f.endswith(".py") or a1 is None or a1 == before:
+                    continue
+                imps = _added_imports(before, a1)
+                if not imps:
+                    continue
+                body = "".join(f"    {i}\n" for i in imps)
+                base = before if before.endswith("\n") else before + "\n"
+                for label, text in (("local_import_in_function", base + "\n\ndef _local_import_holder():\n" + body + "    return None\n"),
+                                    ("local_import_in_class", base + "\n\nclass _LocalImportHolder:\n" + body + "    attr = None\n")):
+                    if e2e.parses(text):
+                        lst = derived.setdefault(o["codemod"], [])
+                        if len(lst) < (4 if ctx.quick() else 16):
+                            lst.append((label, text))
+    jobs2 = []
+    for cm, lst in sorted(derived.items()):
+        files = {f"d{i}.py": t for i, (_, t) in enumerate(lst)}
+        meta = {f"d{i}.py": {"variant": lab} for i, (lab, _) in enumerate(lst)}
+        jobs2.append({"codemod": cm, "subprojects": [{"files": files, "meta": meta, "tool": None, "results": None}]})
+    if not jobs2:
+        return
+    for job, o in zip(jobs2, e2e.run_jobs(ctx, jobs2)):
+        cm = o["codemod"]
+        if o.get("worker_error"):
+            continue
+        for s in o["subprojects"]:
+            if s["error"]:
+                continue
+            for f, before in s["before"].items():
+                a1 = s["after1"].get(f)
+                if not f.endswith(".py") or a1 is None:
+                    continue
+                variant = s["meta"].get(f, {}).get("variant", "?")
+                changed = a1 != before
+                ctx.count(f"variant:{variant}")
+                ctx.case({"codemod": cm, "variant": variant, "before": before[:400], "after": a1[:400]},
+                         nontrivial_key=(cm, before) if changed else None, sample=changed)
+                if changed:
+                    ub, ua = e2e.unresolved(before), e2e.unresolved(a1)
+                    if ub is not None and ua is not None and not ua <= ub:
+                        ctx.violation(classify("C02", cm, before, a1, None),
+                                      f"{cm} introduced unresolved names {sorted(ua - ub)} (variant {variant})",
+                                      {"codemod": cm, "filename": f, "variant": variant, "before": before, "after_first_run": a1,
+                                       "new_unresolved": sorted(ua - ub), "expected": "unresolved(after) is a subset of unresolved(before)"})
 
 
 def replay(ctx: core.Ctx, body, prop):
